@@ -1,6 +1,6 @@
 (* C12: theorems about the functions GENERATED from torrentfile/utils.py
    (Gen/GenPieceLength.v is rewritten from /repo on every run). *)
-From Coq Require Import ZArith Lia Bool String List.
+From Coq Require Import ZArith Lia Bool String List ZifyBool.
 From TF Require Import Lib.Pow2 Gen.GenPieceLength.
 Open Scope Z_scope.
 
@@ -12,14 +12,56 @@ Definition valid_piece_length (n : Z) : Prop := MIN_PL <= n /\ is_pow2 n.
 Lemma shiftl_1_14 : Z.shiftl 1 14 = 16384.
 Proof. reflexivity. Qed.
 
+(* ------------------------------------------------------------------------------------------------------------
+   The theorems below are proved about STABLE specifications (norm_spec, gpl_exp); the generated functions are
+   tied to them by equivalence lemmas whose proofs do not depend on the shape of the generated term: unfold
+   everything, case-split on every boolean test that is left, close each leaf by computation or by lia.  A
+   rewrite of utils.py that reorders comparisons, names constants, inverts a test or turns the `while` into a
+   `for ... in range` changes the generated text but not these proofs; a rewrite that changes the FUNCTION makes
+   some leaf unprovable, and the check then reports the broken proof.
+   ------------------------------------------------------------------------------------------------------------ *)
+
+Ltac split_ifs :=
+  repeat match goal with
+         | |- context[match ?x with Some _ => _ | None => _ end] =>
+             lazymatch x with
+             | context[if _ then _ else _] => fail
+             | _ => let E := fresh "E" in destruct x eqn:E
+             end
+         | |- context[if ?b then _ else _] =>
+             lazymatch b with
+             | context[if _ then _ else _] => fail
+             | _ => let E := fresh "E" in destruct b eqn:E
+             end
+         end.
+
+Ltac leaf :=
+  first [ reflexivity
+        | exfalso; lia
+        | f_equal; rewrite ?Z.shiftl_1_l; first [reflexivity | lia] ].
+
 (* --- the integer path ------------------------------------------------- *)
+
+Definition norm_spec (n : Z) : result :=
+  if n >? 16384 then
+    if Z.land n (n - 1) =? 0 then Ret n else Raise E_PieceLengthValueError
+  else if (13 <? n) && (n <? 26) then Ret (2 ^ n)
+  else if n =? 16384 then Ret n else Raise E_PieceLengthValueError.
+
+Lemma normalize_int_is_spec n : normalize_piece_length_int n = norm_spec n.
+Proof.
+  unfold normalize_piece_length_int, norm_spec. cbv zeta.
+  change (Z.shiftl 1 14) with 16384.
+  generalize (Z.land n (n - 1)). intro L.
+  split_ifs; leaf.
+Qed.
 
 Lemma normalize_int_sound n r :
   normalize_piece_length_int n = Ret r ->
   (valid_piece_length n /\ r = n) \/ (14 <= n <= 29 /\ r = 2 ^ n).
 Proof.
-  unfold normalize_piece_length_int, valid_piece_length, MIN_PL.
-  rewrite shiftl_1_14.
+  rewrite normalize_int_is_spec.
+  unfold norm_spec, valid_piece_length, MIN_PL.
   destruct (Z.gtb n 16384) eqn:Hgt.
   - destruct (Z.eqb (Z.land n (n - 1)) 0) eqn:Hbit; [|discriminate].
     intro H. injection H as <-. left.
@@ -39,8 +81,8 @@ Qed.
 Lemma normalize_int_complete_direct n :
   valid_piece_length n -> normalize_piece_length_int n = Ret n.
 Proof.
-  unfold normalize_piece_length_int, valid_piece_length, MIN_PL.
-  rewrite shiftl_1_14. intros [Hge Hp].
+  rewrite normalize_int_is_spec.
+  unfold norm_spec, valid_piece_length, MIN_PL. intros [Hge Hp].
   destruct (Z.gtb n 16384) eqn:Hgt.
   - apply Z.gtb_lt in Hgt.
     assert (Hbit : Z.land n (n - 1) = 0) by (apply pow2_bit_test; [lia|assumption]).
@@ -53,7 +95,7 @@ Qed.
 Lemma normalize_int_complete_exponent n :
   14 <= n <= 25 -> normalize_piece_length_int n = Ret (2 ^ n).
 Proof.
-  unfold normalize_piece_length_int. rewrite shiftl_1_14. intro H.
+  rewrite normalize_int_is_spec. unfold norm_spec. intro H.
   destruct (Z.gtb_spec n 16384); [lia|].
   destruct (Z.ltb_spec 13 n); [|lia].
   destruct (Z.ltb_spec n 26); [|lia].
@@ -64,11 +106,11 @@ Lemma normalize_int_total n :
   (exists r, normalize_piece_length_int n = Ret r) \/
   normalize_piece_length_int n = Raise E_PieceLengthValueError.
 Proof.
-  unfold normalize_piece_length_int.
-  destruct (Z.gtb n (Z.shiftl 1 14)).
+  rewrite normalize_int_is_spec. unfold norm_spec.
+  destruct (Z.gtb n 16384).
   - destruct (Z.eqb (Z.land n (n - 1)) 0); [left; eexists; reflexivity|right; reflexivity].
   - destruct (andb (Z.ltb 13 n) (Z.ltb n 26)); [left; eexists; reflexivity|].
-    destruct (Z.eqb n (Z.shiftl 1 14)); [left; eexists; reflexivity|right; reflexivity].
+    destruct (Z.eqb n 16384); [left; eexists; reflexivity|right; reflexivity].
 Qed.
 
 (* every value that is neither a valid piece length nor an exponent 14..29
@@ -103,7 +145,15 @@ Lemma normalize_str_reduces s :
        | Some n => normalize_piece_length_int n
        | None => Raise E_PieceLengthValueError
        end.
-Proof. reflexivity. Qed.
+Proof.
+  unfold normalize_piece_length_str. cbv zeta.
+  destruct (str_isnumeric s) eqn:Hnum; cbn [negb];
+    destruct (str_int s) as [n|] eqn:Hint; try reflexivity;
+    rewrite ?normalize_int_is_spec; unfold norm_spec;
+    change (Z.shiftl 1 14) with 16384;
+    try (generalize (Z.land n (n - 1)); intro L);
+    split_ifs; leaf.
+Qed.
 
 Lemma normalize_str_sound s r :
   normalize_piece_length_str str_isnumeric str_int s = Ret r ->
@@ -129,32 +179,50 @@ End Str.
 
 (* --- automatic choice --------------------------------------------------- *)
 
-Lemma gpl_loop_spec fuel size e :
-  14 <= e <= 24 -> (Z.to_nat (24 - e) < fuel)%nat ->
-  exists e', e <= e' <= 24 /\ get_piece_length_loop1 fuel size e = Some e' /\
-             (e' < 24 -> size <= 1000 * 2 ^ e') /\
-             (forall j, e <= j < e' -> size > 1000 * 2 ^ j).
-Proof.
-  revert e. induction fuel as [|f IH]; intros e He Hf; [lia|].
-  cbn [get_piece_length_loop1].
-  destruct (Z.gtb_spec size (1000 * 2 ^ e)) as [Hgt|Hle];
-    destruct (Z.ltb_spec e 24) as [Hlt|Hge]; cbn [andb].
-  - destruct (IH (e + 1)) as [e' [Hr [Heq [Hst Hall]]]]; [lia|lia|].
-    exists e'. split; [lia|]. split; [exact Heq|]. split; [exact Hst|].
-    intros j Hj. destruct (Z.eq_dec j e) as [->|]; [lia|]. apply Hall. lia.
-  - exists e. split; [lia|]. split; [reflexivity|]. split; [lia|]. intros; lia.
-  - exists e. split; [lia|]. split; [reflexivity|]. split; [lia|]. intros; lia.
-  - exists e. split; [lia|]. split; [reflexivity|]. split; [lia|]. intros; lia.
-Qed.
+(* the exponent chosen for a payload of `size` bytes: the first e in 14..23 with size <= 1000 * 2^e, else 24 *)
+Fixpoint gpl_search (es : list Z) (size : Z) : Z :=
+  match es with
+  | nil => 24
+  | e :: rest => if size <=? 1000 * 2 ^ e then e else gpl_search rest size
+  end.
+Definition gpl_exp (size : Z) : Z := gpl_search (14 :: 15 :: 16 :: 17 :: 18 :: 19 :: 20 :: 21 :: 22 :: 23 :: nil) size.
 
 Definition GPL_FUEL : nat := 16.
+
+(* comparisons between closed terms are computed; comparisons that mention `size` stay *)
+Ltac closed_cmp size :=
+  repeat match goal with
+         | |- context[?op ?a ?b] =>
+             lazymatch op with
+             | Z.ltb => idtac | Z.gtb => idtac | Z.leb => idtac | Z.geb => idtac | Z.eqb => idtac
+             end;
+             lazymatch a with context[size] => fail | _ => idtac end;
+             lazymatch b with context[size] => fail | _ => idtac end;
+             let v := eval vm_compute in (op a b) in change (op a b) with v
+         end.
+
+Lemma gpl_is_spec size : get_piece_length GPL_FUEL size = Ret (2 ^ gpl_exp size).
+Proof.
+  unfold gpl_exp.
+  cbv -[Z.gtb Z.ltb Z.leb Z.geb Z.eqb andb negb orb].
+  closed_cmp size.
+  rewrite ?andb_true_r, ?andb_false_r, ?andb_true_l, ?andb_false_l, ?orb_true_r, ?orb_false_r, ?orb_true_l, ?orb_false_l.
+  cbn [negb].
+  split_ifs; leaf.
+Qed.
+
+Lemma gpl_exp_range size : 14 <= gpl_exp size <= 24.
+Proof. unfold gpl_exp. cbn [gpl_search]. split_ifs; lia. Qed.
+
+Lemma gpl_exp_monotone s s' : s <= s' -> gpl_exp s <= gpl_exp s'.
+Proof.
+  intro H. unfold gpl_exp. cbv -[Z.leb Z.le]. split_ifs; lia.
+Qed.
 
 Lemma gpl_range size :
   exists e, 14 <= e <= 24 /\ get_piece_length GPL_FUEL size = Ret (2 ^ e).
 Proof.
-  unfold get_piece_length.
-  destruct (gpl_loop_spec GPL_FUEL size 14) as [e' [Hr [Heq _]]]; [lia|unfold GPL_FUEL; simpl; lia|].
-  rewrite Heq. exists e'. split; [lia|reflexivity].
+  exists (gpl_exp size). split; [apply gpl_exp_range | apply gpl_is_spec].
 Qed.
 
 Lemma gpl_monotone s s' e e' :
@@ -163,32 +231,54 @@ Lemma gpl_monotone s s' e e' :
   get_piece_length GPL_FUEL s' = Ret (2 ^ e') -> 14 <= e' <= 24 ->
   2 ^ e <= 2 ^ e'.
 Proof.
-  unfold get_piece_length. intros Hs H1 He H2 He'.
-  destruct (gpl_loop_spec GPL_FUEL s 14) as [a [Ha [Haeq [Hast Haall]]]]; [lia|unfold GPL_FUEL; simpl; lia|].
-  destruct (gpl_loop_spec GPL_FUEL s' 14) as [b [Hb [Hbeq [Hbst Hball]]]]; [lia|unfold GPL_FUEL; simpl; lia|].
-  rewrite Haeq in H1. rewrite Hbeq in H2.
+  intros Hs H1 He H2 He'.
+  rewrite gpl_is_spec in H1, H2.
   injection H1 as H1. injection H2 as H2.
-  apply Z.pow_inj_r in H1; [|lia|lia|lia]. apply Z.pow_inj_r in H2; [|lia|lia|lia]. subst a b.
-  apply Z.pow_le_mono_r; [lia|].
-  destruct (Z_le_gt_dec e e') as [|Hgt]; [assumption|exfalso].
-  (* e' < e: s > 1000*2^e' (all j < e) but s' <= 1000*2^e' *)
-  assert (s > 1000 * 2 ^ e') by (apply Haall; lia).
-  assert (s' <= 1000 * 2 ^ e') by (apply Hbst; lia). lia.
+  pose proof (gpl_exp_range s). pose proof (gpl_exp_range s').
+  apply Z.pow_inj_r in H1; [|lia|lia|lia]. apply Z.pow_inj_r in H2; [|lia|lia|lia].
+  subst e e'. apply Z.pow_le_mono_r; [lia|]. apply gpl_exp_monotone. exact Hs.
 Qed.
 
 (* --- next_power_2 -------------------------------------------------------- *)
 
+(* stable specification of the doubling loop and of the function; the generated text is tied to it shape-independently *)
+Fixpoint np2_spec_loop (fuel : nat) (v s : Z) : option Z :=
+  match fuel with
+  | O => None
+  | S f => if s <? v then np2_spec_loop f v (s * 2) else Some s
+  end.
+
+Definition np2_spec (fuel : nat) (v : Z) : result :=
+  if (Z.land v (v - 1) =? 0) && negb (v =? 0) then Ret v
+  else match np2_spec_loop fuel v 1 with None => OutOfFuel | Some x => Ret x end.
+
+Lemma np2_loop_is_spec fuel : forall v s, next_power_2_loop1 fuel v s = np2_spec_loop fuel v s.
+Proof.
+  induction fuel as [|f IH]; intros v s; [reflexivity|].
+  cbn [next_power_2_loop1 np2_spec_loop]. cbv zeta.
+  rewrite ?Z.shiftl_mul_pow2 by lia. change (2 ^ 1) with 2.
+  replace (2 * s) with (s * 2) by lia.
+  rewrite ?IH.
+  split_ifs; leaf.
+Qed.
+
+Lemma np2_is_spec fuel v : next_power_2 fuel v = np2_spec fuel v.
+Proof.
+  unfold next_power_2, np2_spec. cbv zeta. rewrite ?np2_loop_is_spec.
+  destruct (np2_spec_loop fuel v 1);
+    generalize (Z.land v (v - 1)); intro L; split_ifs; leaf.
+Qed.
+
 Lemma np2_loop_spec fuel v k :
   0 <= k -> 2 ^ k < 2 * v -> (Z.to_nat (Z.log2_up v - k) < fuel)%nat -> 1 <= v ->
   (k = 0 \/ 2 ^ (k - 1) < v) ->
-  exists j, k <= j /\ next_power_2_loop1 fuel v (2 ^ k) = Some (2 ^ j) /\
+  exists j, k <= j /\ np2_spec_loop fuel v (2 ^ k) = Some (2 ^ j) /\
             v <= 2 ^ j /\ (j = 0 \/ 2 ^ (j - 1) < v).
 Proof.
   revert k. induction fuel as [|f IH]; intros k Hk Hlt Hf Hv Hprev; [lia|].
-  cbn [next_power_2_loop1].
+  cbn [np2_spec_loop].
   destruct (Z.ltb_spec (2 ^ k) v) as [Hl|Hge].
-  - rewrite Z.shiftl_mul_pow2 by lia. change (2 ^ 1) with 2.
-    replace (2 ^ k * 2) with (2 ^ (k + 1)) by (rewrite Z.pow_add_r by lia; reflexivity).
+  - replace (2 ^ k * 2) with (2 ^ (k + 1)) by (rewrite Z.pow_add_r by lia; reflexivity).
     assert (Hklog : k < Z.log2_up v).
     { apply Z.log2_up_lt_pow2; lia. }
     destruct (IH (k + 1)) as [j [Hj [Heq [Hle Hpj]]]]; try lia.
@@ -204,7 +294,7 @@ Lemma next_power_2_spec v :
   exists j, 0 <= j /\ next_power_2 (S (Z.to_nat (Z.log2_up v))) v = Ret (2 ^ j) /\
             v <= 2 ^ j /\ (j = 0 \/ 2 ^ (j - 1) < v).
 Proof.
-  intro Hv. unfold next_power_2.
+  intro Hv. rewrite np2_is_spec. unfold np2_spec.
   destruct (Z.eqb_spec (Z.land v (v - 1)) 0) as [Hbit|Hbit]; cbn [negb andb].
   - destruct (Z.eqb_spec v 0); [lia|]. cbn [negb].
     apply pow2_bit_test in Hbit; [|lia]. destruct Hbit as [k [Hk ->]].
